@@ -1,5 +1,6 @@
 import TrionModel.Model.Front
 import TrionModel.Model.Show
+import TrionModel.Model.Simp
 /-!
 # Specification-level notions for C04 / C19 (import-free)
 
@@ -55,8 +56,17 @@ def Printable (i : Instr) (a : Nat) : Prop :=
   | .udfw v => 0 ≤ v ∧ v ≤ 65535
   | _ => True
 
-/-- What C19 assumes of the evaluator (to be discharged by the `Simp`/`Eval` model of C07/C08 and checked on
-the real `evaluate` by the harness): integer literals and register names evaluate to themselves, the label
+/-- the base register and offset of the `[R + x]` operand the text of `i` contains (none for the literal form
+of `LDR`, which prints a label) -/
+def memOf : Instr → Option (Reg × ImmReg)
+  | .ldr _ ad (.imm off) => if ad.val = 15 then none else some (ad, .imm off)
+  | .ldr _ ad (.reg r) => some (ad, .reg r)
+  | .ldrb _ ad o | .ldrh _ ad o | .str _ ad o | .strb _ ad o | .strh _ ad o => some (ad, o)
+  | .ldrsb _ ad o | .ldrsh _ ad o => some (ad, .reg o)
+  | _ => none
+
+/-- What C19 assumes of the evaluator (discharged for the `Simp` model of C07/C08 in `Lemmas/ShowEval.lean`
+— `evalOK_simp` — and checked on the real `evaluate` by the harness): integer literals and register names evaluate to themselves, the label
 the text mentions is a defined constant whose value is the address it names, and an address operand
 `[R + x]` evaluates to an address operand that `addr_off` reads the same way (the simplifier rewrites
 `[R + 0]` to `[R]`). -/
@@ -64,8 +74,35 @@ structure EvalOK (eval : Arg → EvalOut) (i : Instr) (a : Nat) : Prop where
   const : ∀ v : Int, eval (.const v) = .complete (.const v)
   reg : ∀ r : Reg, eval (.ident (regName r)) = .complete (.ident (regName r))
   label : ∀ t, targetOf i a = some t → eval (.ident (label t)) = .complete (.const t)
-  mem : ∀ (ad : Reg) (o : ImmReg), ∃ x, eval (memA ad (irA o)) = .complete (.addr x) ∧
+  mem : ∀ (ad : Reg) (o : ImmReg), memOf i = some (ad, o) → ∃ x, eval (memA ad (irA o)) = .complete (.addr x) ∧
           ∀ idx, addrOff idx x = addrOff idx (.bin .add (rA ad) (irA o))
+
+/-- an immediate offset inside `[R + x]` is not negative (true of every encodable instruction; the real
+evaluator rewrites `[R + -4]` to `[R - 4]`, which `addr_off` does not accept) -/
+def MemNonneg (i : Instr) : Prop := ∀ ad v, memOf i = some (ad, .imm v) → 0 ≤ v
+
+/-- the property's side condition on its own: the PC-relative target — statement address plus 4 (word-aligned
+first for ADR / literal LDR) plus the offset, in unbounded arithmetic — lies inside the 32-bit address space -/
+def targetInRange (i : Instr) (a : Nat) : Prop :=
+  match i with
+  | .adr _ off => (Front.alPc a : Int) + off < 4294967296
+  | .ldr _ ad (.imm off) => ad.val = 15 → (Front.alPc a : Int) + off < 4294967296
+  | .b _ off | .bl off => 0 ≤ (Front.pcOf a : Int) + off ∧ (Front.pcOf a : Int) + off < 4294967296
+  | _ => True
+
+/-- `eval` is the concrete evaluator (`evaluate`, model `Simp.evaluateT`, registers recognised by
+`Arm6M::is_register`) over the symbol table `lk`, as far as completed evaluations go -/
+def EvalIsSimp (eval : Arg → EvalOut) (lk : Bytes → Simp.Lookup) : Prop :=
+  ∀ x ch a', Simp.evaluateT lk Front.isRegister x = .ok ⟨ch, none⟩ a' → eval x = .complete a'
+
+/-- the concrete evaluator as an `EvalOut` function (the overflow text is opaque to the front end) -/
+def simpEval (lk : Bytes → Simp.Lookup) (x : Arg) : EvalOut :=
+  match Simp.evaluateT lk Front.isRegister x with
+  | .ok ev a' => (match ev.cause with | none => .complete a' | some c => .deferred c a')
+  | .nosuch n a' => .noSuchVariable n a'
+  | .err (.badType k o) => .error (.badType k o) x
+  | .err (.overflow _) => .error (.overflow "overflow") x
+  | .panic => .error (.overflow "panic") x
 
 /-- the template `ArmInstr::new` must produce for the mnemonic printed for `i` -/
 def template : Instr → Instr
